@@ -2,7 +2,10 @@
 // file, an independent copy of the active file as it was just before the write that rotated it
 // ("the log file it replaces").  Decoding of the produced .gz files happens in Python, never here.
 //
-//   h_gzip <dir> <L> <N> <options> <enc: l|u>       then lines on stdin:
+//   h_gzip <dir> <L> <N> <options> <enc: l|u> [<locale codec>]      then lines on stdin:
+//     <locale codec>: when given (e.g. ISO-8859-1, ISO-8859-15, windows-1252, KOI8-R) it becomes the codec of the
+//                     process's 8-bit locale (QTextCodec::setCodecForLocale) = what toLocal8Bit() and therefore the sink's
+//                     write use; exit status 3 when Qt does not know the name.  Absent: whatever LC_ALL/LANG select.
 //     W <hex>           send one record; its text is QString::fromLatin1 / fromUtf8 of the bytes (NULs kept);
 //                       the active file is snapshotted before, the directory compared after
 //     w <hex>           send one record without snapshot and without flushing (bulk filling)
@@ -22,6 +25,7 @@
 #include <QDir>
 #include <QFile>
 #include <QSet>
+#include <QTextCodec>
 #include <clocale>
 #include <iostream>
 #include <atomic>
@@ -36,6 +40,11 @@ int main(int argc, char **argv)
     QString dir = QString::fromLocal8Bit(argv[1]);
     int L = atoi(argv[2]), N = atoi(argv[3]), o = atoi(argv[4]);
     bool latin1 = argv[5][0] == 'l';
+    if (argc > 6 && argv[6][0]) {
+        QTextCodec *codec = QTextCodec::codecForName(argv[6]);
+        if (!codec) return 3;
+        QTextCodec::setCodecForLocale(codec);
+    }
     QString exp = dir + ".exp";
     QDir().mkpath(dir);
     QDir().mkpath(exp);
